@@ -10,6 +10,9 @@
     getfile <dir> <sum>       -> <hex>
     n2p <s>                   -> ok <hex> | err                   (blob.nameToPath)
     mfpath <dir> <n> <link>* <name> -> ok <hex> | err             (DiskCache.manifestPath)
+    snd <s>                   -> <name> <digest>                  (blob.splitNameDigest)
+    resolve <dir> <n> <link>* <s> -> digest <sum> | manifest <hex> | invalid   (addressing part of DiskCache.Resolve)
+    fold <asciiA> <l>         -> 0|1                              (strings.EqualFold, ASCII left operand)
     ext <s>                   -> ok <scheme> h,ns,m,t <sum> | err:scheme|err:digest|err:name
     split <s>                 -> <scheme> <name> <digest>
     clean <s>                 -> <hex>
@@ -87,6 +90,25 @@ def handle (toks : List String) : Option String :=
       let links ← listOf hex
       let s ← hex
       pure (showOpt (manifestPath dir links s))) rest
+  | "snd" :: rest =>
+    runTP (do
+      let s ← hex
+      let (a, b) := splitNameDigest s
+      pure s!"{hexOrDash a} {hexOrDash b}") rest
+  | "resolve" :: rest =>
+    runTP (do
+      let dir ← hex
+      let links ← listOf hex
+      let s ← hex
+      pure (match cacheResolve dir links s with
+        | .digest d => s!"digest {hexOrDash d}"
+        | .manifest p => s!"manifest {hexOrDash p}"
+        | .invalid => "invalid")) rest
+  | "fold" :: rest =>
+    runTP (do
+      let a ← hex
+      let l ← hex
+      pure (b01 (equalFold a l))) rest
   | "ext" :: rest =>
     runTP (do
       let s ← hex
